@@ -16,7 +16,7 @@
 #include <votca/tools/histogram.h>
 #include <votca/tools/histogramnew.h>
 
-#include <sys/wait.h>
+#include "h_c13_contain.h"
 
 using namespace vv;
 using votca::Index;
@@ -25,89 +25,6 @@ namespace vt = votca::tools;
 static const char *KEY_WRAP = "HistogramNew::Process/periodic-wrap-negative-multiple-of-nbins";
 static const char *KEY_CAST = "HistogramNew::Process/index-cast-overflow";
 static const char *KEY_LEGACY_MAX = "Histogram::ProcessData/auto-range-max-init";
-
-// ------------------------------------------------------------------ containment: run `body` in a forked child
-static json result_to_json(const Result &r) {
-  return json{{"ok", r.ok}, {"discard", r.discard}, {"nontrivial", r.nontrivial}, {"key", r.key}, {"msg", r.msg}, {"classes", r.classes}};
-}
-static Result result_from_json(const json &j) {
-  Result r;
-  r.ok = j.at("ok");
-  r.discard = j.at("discard");
-  r.nontrivial = j.at("nontrivial");
-  r.key = j.at("key");
-  r.msg = j.at("msg");
-  r.classes = j.at("classes").get<std::vector<std::string>>();
-  return r;
-}
-
-static Result contained(const std::function<Result()> &body, const std::string &crash_key, const std::string &crash_msg) {
-  int fd[2];
-  Result r;
-  if (pipe(fd) != 0) {
-    r.fail("harness/pipe", "pipe() failed");
-    return r;
-  }
-  fflush(stdout);
-  fflush(stderr);
-  pid_t pid = fork();
-  if (pid < 0) {
-    r.fail("harness/fork", "fork() failed");
-    return r;
-  }
-  if (pid == 0) {
-    close(fd[0]);
-    // the child must not touch the parent's statistics / crash files when it dies
-    st().out.clear();
-    st().crash.clear();
-    st().in_case = false;
-    dup2(fd[1], 2);  // sanitizer / assert text goes to the parent through the same pipe
-    Result cr;
-    try {
-      cr = body();
-    } catch (const std::exception &e) {
-      cr.fail("unexpected-exception", std::string("unexpected exception: ") + e.what());
-    }
-    std::string s = "\nVVRESULT:" + result_to_json(cr).dump() + "\n";
-    size_t off = 0;
-    while (off < s.size()) {
-      ssize_t w = write(fd[1], s.data() + off, s.size() - off);
-      if (w <= 0) break;
-      off += size_t(w);
-    }
-    _exit(0);
-  }
-  close(fd[1]);
-  std::string out;
-  char buf[4096];
-  ssize_t n;
-  while ((n = read(fd[0], buf, sizeof buf)) > 0) out.append(buf, size_t(n));
-  close(fd[0]);
-  int status = 0;
-  waitpid(pid, &status, 0);
-  size_t p = out.rfind("\nVVRESULT:");
-  if (WIFEXITED(status) && WEXITSTATUS(status) == 0 && p != std::string::npos) {
-    try {
-      return result_from_json(json::parse(out.substr(p + 10)));
-    } catch (const std::exception &) {
-    }
-  }
-  // died: pick the line of the report that says why
-  std::string why;
-  {
-    std::stringstream ss(out);
-    std::string line;
-    while (std::getline(ss, line))
-      if (line.find("runtime error") != std::string::npos || line.find("Assertion") != std::string::npos ||
-          line.find("ERROR: AddressSanitizer") != std::string::npos) {
-        why = line.substr(0, 400);
-        break;
-      }
-  }
-  std::string how = WIFSIGNALED(status) ? fmt("signal %d", WTERMSIG(status)) : fmt("exit status %d", WEXITSTATUS(status));
-  r.fail(crash_key, crash_msg + " -> process died (" + how + "): " + why);
-  return r;
-}
 
 // ------------------------------------------------------------------ reference
 struct RefBin {
